@@ -119,6 +119,14 @@ type Tuple struct {
 	Callback bool
 	Prefix   []Op
 	Ops      []Op
+	// PauseRange lets the scheduler pause the unordered Range inside its
+	// visitor as well. Such executions cannot be re-executed step by step (the
+	// iteration order of the index is not reproducible), so they are only used
+	// with Choose (sampled schedules), never with Explore.
+	PauseRange bool
+	// Choose, when non-nil, picks the goroutine to release at every step
+	// beyond the replayed choice prefix (default: the lowest-numbered one).
+	Choose func(step int, enabled []int) int
 }
 
 // walkVisit is called from walk visitors of scheduled ops: the visitor runs
@@ -161,7 +169,7 @@ func RunSchedule(t Tuple, choices []int) *Exec {
 		i := i
 		ex.First[i], ex.Last[i] = -1, -1
 		visit := walkVisit
-		if t.Ops[i].Kind == KRange {
+		if t.Ops[i].Kind == KRange && !t.PauseRange {
 			// sync.Map iteration order is randomised per map instance, so
 			// pausing inside it would make re-execution non-deterministic:
 			// the unordered Range is scheduled as one atomic segment.
@@ -228,6 +236,8 @@ func RunSchedule(t Tuple, choices []int) *Exec {
 				ex.Diverge = fmt.Sprintf("step %d: replayed choice %d not enabled (%v)", step, pick, en)
 				return ex
 			}
+		} else if t.Choose != nil {
+			pick = t.Choose(step, en)
 		}
 		if ex.First[pick] < 0 {
 			ex.First[pick] = step
